@@ -143,7 +143,7 @@ def run(tier, seed, flavour="plain"):
         return V.finish()
     evals, distinct, samples, stats = decide_dump(V, d)
     res = core.run_sharded([{"name": "c08_parse", "binary": paths["c08_parse"], "nshards": core.NCPU, "out": od,
-                             "args": ["--seed", str(seed), "--tier", tier] + core.deep(tier, strings=12000000),
+                             "args": ["--seed", str(seed), "--tier", tier] + core.deep(tier, strings=12000000) + core.boost(tier, flavour, strings=240000),
                              "env": core.SAN_ENV if flavour == "san" else None}])
     V.absorb(res)
     m = core.merge_summaries(res)
